@@ -117,15 +117,17 @@ def makeExportName (name : Name) (isFile : Bool) : Name :=
 
 def isSep (c : Char) : Bool := isWs c || c == '-'
 
-/-- `_STEREO_FILENAME` = `(.*?)([\s-]+)(L|R)\s*$`: (stem, separator run, side). -/
+/-- `_STEREO_FILENAME` = `(.*?)([\s-]+)(L|R)\s*$`: (stem, separator run, side).
+`.` does not match a line feed: a stem that contains one cannot be matched (names of real images never do). -/
 def stereoMatch (s : Name) : Option (Name × Name × Char) :=
   let r := s.reverse.dropWhile isWs
   match r with
   | side :: rest =>
     if side == 'L' || side == 'R' then
       let sep := rest.takeWhile isSep
-      if sep.isEmpty then none
-      else some ((rest.dropWhile isSep).reverse, sep.reverse, side)
+      let stem := (rest.dropWhile isSep).reverse
+      if sep.isEmpty || stem.any (· == '\n') then none
+      else some (stem, sep.reverse, side)
     else none
   | [] => none
 
